@@ -825,3 +825,55 @@ Proof.
          | |- _ \/ (exists c r, String ?x ?y = String c r /\ _) => right; exists x, y; split; reflexivity
          end).
 Qed.
+
+(* shorthand with an expected count, the remaining forms: nJ and nI fit-guarded,
+   xM without any condition (it stands for one entry) *)
+Theorem C14_shorthand_expected_jim :
+  forall (V : Type) (rd : string -> option V) (lin : V -> V -> nat -> list V) (mul : V -> V -> V)
+         (e : nat) (acc : list (option V)) (k : nat) (ts : list string),
+  (forall t pre n,
+     kind_of (lower t) = KJump pre -> count_of pre = Some n ->
+     List.length acc + n <= e -> n <> 0 ->
+     vals V (run V rd lin mul (Some e) acc k (t :: ts))
+     = vals V (run V rd lin mul (Some e) acc k (repeat "j" n ++ ts)%list)) /\
+  (forall t pre n lo u hi xs,
+     kind_of (lower t) = KInt pre -> count_of pre = Some n -> plain V rd u hi ->
+     Forall2 (plain V rd) xs (lin lo hi n) ->
+     List.length acc + 1 + List.length xs + 1 <= e ->
+     vals V (run V rd lin mul (Some e) (Some lo :: acc) k (t :: u :: ts))
+     = vals V (run V rd lin mul (Some e) (Some lo :: acc) k (xs ++ u :: ts)%list)) /\
+  (forall t c pre f v x,
+     kind_of (lower t) = KMul (String c pre) -> rd (String c pre) = Some f -> plain V rd x (mul v f) ->
+     vals V (run V rd lin mul (Some e) (Some v :: acc) k (t :: ts))
+     = vals V (run V rd lin mul (Some e) (Some v :: acc) k (x :: ts))).
+Proof.
+  intros V rd lin mul e acc k ts. repeat split; intros.
+  - eapply expand_jump_expected; eauto.
+  - eapply expand_interpolate_expected; eauto.
+  - eapply expand_multiply_expected; eauto.
+Qed.
+Print Assumptions C14_shorthand_expected_jim.
+
+(* LINK C15 + C09, density in another spelling of its exponent marker: as
+   C14_parse_metamorphic_linked, and the densities of a material cell may be any
+   two strings that the environment's normalize_float maps to the same string *)
+Theorem C14_parse_metamorphic_density_linked :
+  forall (T : Type) (SC : Scalar T) (e : C15.Model.env (T:=T))
+         (Ls Ls' : list (list pline)) (As As' : list acell),
+  Forall2 layout_of Ls As -> Forall2 layout_of Ls' As' ->
+  Forall acell_ok As -> Forall acell_ok As' -> Forall2 (avariant_d e) As As' ->
+  exists t t',
+    entries Ls = map Some t /\ entries Ls' = map Some t' /\
+    C15.Model.parse_all SC e t = C15.Model.parse_all SC e t'.
+Proof. intros T SC e Ls Ls' As As' H1 H2 H3 H4 H5. exact (parse_metamorphic_density_linked SC e Ls Ls' As As' H1 H2 H3 H4 H5). Qed.
+Print Assumptions C14_parse_metamorphic_density_linked.
+
+(* C09's model of normalize_float maps the marker spellings of one density to
+   the same string (instances; the general marker-insensitivity of C09's four
+   passes is not proved here) *)
+Example C14_density_case_c09_nonvacuous :
+  c09_normfloat "-1.5E-3" = c09_normfloat "-1.5e-3" /\
+  c09_normfloat "-1.5D-3" = c09_normfloat "-1.5e-3" /\
+  c09_normfloat "-1.5-3" = c09_normfloat "-1.5e-3" /\
+  c09_normfloat "-1.50d-3" = "-1.5e-3".
+Proof. repeat split; vm_compute; reflexivity. Qed.
